@@ -304,16 +304,18 @@ def obligations(tier):
             cuts = [None] if tier == 'quick' else [None, 3, 9]
             for cut in cuts:
                 obs.append({'name': 'totality.%s.%s%s' % (role, tpl, '' if cut is None else '.cut%d' % cut), 'fn': 'totality',
-                            'cfg': {'tpl': tpl, 'role': role, 'cut': cut, 'wide': tier == 'thorough'},
+                            'cfg': {'tpl': tpl, 'role': role, 'cut': cut},
                             'timeout': T if tier == 'quick' else 1500, 'group': 'totality'})
         for trunc in (3, 10, 20, 30, 41, 43, 58):
             obs.append({'name': 'totality.%s.truncated%d' % (role, trunc), 'fn': 'totality',
                         'cfg': {'tpl': 'truncated', 'role': role, 'trunc': trunc}, 'timeout': T, 'group': 'totality'})
     for tpl in ('ws_op', 'ws_len', 'ws_close', 'follow_close', 'follow_http10'):
-        obs.append({'name': 'after_served.%s' % tpl, 'fn': 'after_served', 'cfg': {'tpl': tpl}, 'timeout': T, 'group': 'after_served'})
+        obs.append({'name': 'after_served.%s' % tpl, 'fn': 'after_served', 'cfg': {'tpl': tpl}, 'timeout': 900, 'group': 'after_served'})
     codes = (200, 404) if tier == 'quick' else (100, 200, 204, 301, 304, 400, 404, 407, 500, 502, 599)
     for code in codes:
         for blen in (0, 1, 3):
+            if blen and (code < 200 or code in (204, 304)):
+                continue               # these status codes never carry a body
             for close in (False, True):
                 for no_cl in (False, True):
                     if no_cl and blen and not close:
@@ -326,6 +328,8 @@ def obligations(tier):
                                     'cfg': {'which': 'response', 'code': code, 'blen': blen, 'close': close, 'no_cl': no_cl, 'rlen': 2,
                                             'hdr': hdr}, 'timeout': 200})
         for blen in (0, 2):
+            if blen and (code < 200 or code in (204, 304)):
+                continue
             obs.append({'name': 'builders.rejected.%d.b%d' % (code, blen), 'fn': 'builders', 'group': 'builders',
                         'cfg': {'which': 'rejected', 'code': code, 'blen': blen, 'rlen': 0, 'hdr': True}, 'timeout': 200})
     for blen in (0, 1, 3):
@@ -349,7 +353,7 @@ def obligations(tier):
 META = {
     'bounds': {
         'quick': 'first-request bytes from 13 mutation templates (method of 3 arbitrary bytes, target of 3-4, version tail of 3, header name/'
-                 'value of 1+1 (thorough 2+1), Content-Length value of 3, chunk-size of 2, 4 fully arbitrary bytes with and without a terminator, a 5-byte '
+                 'value of 1+1, Content-Length value of 3, chunk-size of 2, 4 fully arbitrary bytes with and without a terminator, a 5-byte '
                  'arbitrary request line, truncations at 7 points, web path of 3) in three roles (proxy, web server, both), one segment; after a '
                  'served web request: a follow-up request with arbitrary path byte / version digit and optional Connection: close, and '
                  'after a websocket upgrade: frames with arbitrary opcode byte, length byte, close status; '
